@@ -15,7 +15,7 @@ RULE = (
     "ConvexPolyhedron) a family of 3-6 alternative exact representations is generated: other defining points on "
     "the carrier, direction/normal scalings by +-k (positive only for HalfLine), swapped end points, constructor "
     "forms (two points / point+vector / position vector / three points / two vectors / general form), vertex "
-    "rotations, reflections and repeats, face permutations and negations, int / float / Fraction coordinates "
+    "rotations, reflections and repeats, face permutations and negations, int / float / Fraction coordinates (also mixed within one Point or Vector) "
     "(dyadic lattice values), and a copy moved by v and back by -v; plus a family of near-miss different sets (one "
     "defining point displaced by >= 1/512, direction tilted by a lattice step, one vertex changed or removed, and "
     "pairs that differ only by the coordinate values -1 / -2, which collide under CPython's float hash). Oracle: within "
@@ -30,7 +30,7 @@ ASSUMPTIONS = [
     "failing cases are reported only inside the admission domain (run-time tolerance/rounding witness: hashed floats within 1% of a rounding step of a boundary are outside the domain)",
 ]
 
-CT = {"f": float, "i": int, "q": F}
+CT = {"f": float, "i": int, "q": F, "m": B.MIXED}
 
 
 def build_rep(kind, o, rep):
@@ -233,7 +233,7 @@ def admit(case, fail):
 
 
 # ---------------------------------------------------------------- strategies
-ctypes_for = st.sampled_from(("f", "f", "i", "q"))
+ctypes_for = st.sampled_from(("f", "f", "i", "q", "m"))
 lat_vec = gen.direction(3)
 
 
